@@ -1,3 +1,5 @@
 import AM.Model.Dedup
 import AM.Model.Group
 import AM.Props.C04
+import AM.Props.C05
+import AM.Props.C01
